@@ -77,6 +77,19 @@ def alpha_rename(tree: ast.AST, R: random.Random, pool: List[str] = HOSTILE) -> 
     return ast.fix_missing_locations(out), n_renamed[0]
 
 
+def alpha_rename_distinct(tree: ast.AST) -> Tuple[ast.AST, int]:
+    "every lambda parameter gets a name of its own (u1, u2, ...)"
+    used = all_names(tree)
+    pool = [f"u{k}" for k in range(1, 400) if f"u{k}" not in used]
+
+    class Seq:
+        def choice(self, cands):
+            x = cands[0]
+            pool.remove(x)
+            return x
+    return alpha_rename(tree, Seq(), pool)  # type: ignore
+
+
 def _would_be_captured(body: ast.AST, old: str, new: str) -> bool:
     "True if `old` occurs free inside a nested lambda that binds `new`"
     for n in ast.walk(body):
@@ -219,3 +232,123 @@ def chain_length(stripped: ast.AST) -> int:
         n = linq_src(n)
         k += 1
     return k
+
+
+# ---------------------------------------------------------------- metadata riding on inner expressions
+def _wrap_md(n: ast.AST, mds: List[ast.AST]) -> ast.AST:
+    for m in reversed(mds):
+        n = ast.Call(func=ast.Name("MetaData", ast.Load()), args=[n, copy.deepcopy(m)], keywords=[])
+    return n
+
+
+def _innermost_stream_call(stripped: ast.AST) -> Optional[ast.Call]:
+    "the main-chain Select/SelectMany/Where whose source is the dataset itself"
+    n, last = stripped, None
+    while isinstance(n, ast.Call) and is_linq(n) and linq_name(n) in ("Select", "SelectMany", "Where"):
+        last = n
+        n = linq_src(n)
+    return last
+
+
+def _first_collection_call(lam: ast.Lambda) -> Optional[ast.Call]:
+    "e.<Collection>('bank') on the lambda's own (event) parameter"
+    if len(lam.args.args) != 1:
+        return None
+    p = lam.args.args[0].arg
+    for n in ast.walk(lam.body):
+        if (isinstance(n, ast.Call) and isinstance(n.func, ast.Attribute) and isinstance(n.func.value, ast.Name) and n.func.value.id == p
+                and len(n.args) == 1 and isinstance(n.args[0], ast.Constant) and isinstance(n.args[0].value, str) and not n.keywords):
+            return n
+    return None
+
+
+def metadata_on_inner_collection(stripped: ast.AST, mds: List[ast.AST]) -> Optional[ast.AST]:
+    """All metadata attached to the first collection call inside the event-level lambda
+    (`MetaData(e.Jets('A'), {...})`, the way calibration helper libraries send it)."""
+    tree = copy.deepcopy(stripped)
+    call = _innermost_stream_call(tree)
+    if call is None:
+        return None
+    lams = [a for a in linq_args(call) if isinstance(a, ast.Lambda)]
+    if not lams:
+        return None
+    target = _first_collection_call(lams[0])
+    if target is None:
+        return None
+    wrapped = _wrap_md(copy.deepcopy(target), mds)
+
+    class T(ast.NodeTransformer):
+        done = False
+
+        def visit_Call(self, n):
+            if n is target and not self.done:
+                self.done = True
+                return wrapped
+            return self.generic_visit(n)
+    lams[0].body = T().visit(lams[0].body)
+    return ast.fix_missing_locations(tree)
+
+
+def metadata_on_discarded_element(stripped: ast.AST, mds: List[ast.AST]) -> Optional[ast.AST]:
+    """`S(ds, lambda e: B)`  ->  `S(Select(ds, lambda e0: (MetaData(e0.Coll('bank'), ...), e0)), lambda t0: B[e := t0[1]])`:
+    the metadata rides on a tuple element the rest of the query never uses (tuple resolution removes it)."""
+    tree = copy.deepcopy(stripped)
+    call = _innermost_stream_call(tree)
+    if call is None or linq_name(call) == "Where":   # a Where hands its input on: the tuple would reach the rest of the chain
+        return None
+    lams = [a for a in linq_args(call) if isinstance(a, ast.Lambda)]
+    if not lams or len(lams[0].args.args) != 1:
+        return None
+    lam = lams[0]
+    coll = _first_collection_call(lam)
+    if coll is None:
+        return None
+    used = all_names(tree)
+    e0 = next(n for n in ("e0", "ev0", "evt_0", "q0") if n not in used)
+    t0 = next(n for n in ("t0", "tp0", "tup_0", "q1") if n not in used)
+    carrier = ast.Call(func=ast.Attribute(ast.Name(e0, ast.Load()), coll.func.attr, ast.Load()), args=[copy.deepcopy(coll.args[0])], keywords=[])
+    first = ast.Lambda(args=ast.arguments(posonlyargs=[], args=[ast.arg(e0)], kwonlyargs=[], kw_defaults=[], defaults=[]),
+                       body=ast.Tuple([_wrap_md(carrier, mds), ast.Name(e0, ast.Load())], ast.Load()))
+    p = lam.args.args[0].arg
+
+    class S(ast.NodeTransformer):
+        def visit_Lambda(self, n):
+            if any(a.arg == p for a in n.args.args):
+                return n
+            return self.generic_visit(n)
+
+        def visit_Name(self, n):
+            if n.id == p:
+                return ast.Subscript(ast.Name(t0, ast.Load()), ast.Constant(1), ast.Load())
+            return n
+    new_body = S().visit(copy.deepcopy(lam.body))
+    second = ast.Lambda(args=ast.arguments(posonlyargs=[], args=[ast.arg(t0)], kwonlyargs=[], kw_defaults=[], defaults=[]), body=new_body)
+    src = linq_src(call)
+    inner = ast.Call(func=ast.Name("Select", ast.Load()), args=[src, first], keywords=[])
+    new_call = make_linq(call, linq_name(call), inner, [second])
+
+    class R(ast.NodeTransformer):
+        def visit_Call(self, n):
+            if n is call:
+                return new_call
+            return self.generic_visit(n)
+    return ast.fix_missing_locations(R().visit(tree))
+
+
+def metadata_lists_as_tuples(tree: ast.AST) -> Tuple[ast.AST, int]:
+    "list-valued entries of the metadata dictionaries written as tuples (what a Python caller may well send; the text wire format turns them into lists)"
+    tree = copy.deepcopy(tree)
+    n_changed = [0]
+
+    class L(ast.NodeTransformer):
+        def visit_List(self, n):
+            n_changed[0] += 1
+            return ast.Tuple([self.visit(x) for x in n.elts], ast.Load())
+
+    class T(ast.NodeTransformer):
+        def visit_Call(self, n):
+            n = self.generic_visit(n)
+            if isinstance(n.func, ast.Name) and n.func.id == "MetaData" and len(n.args) == 2 and isinstance(n.args[1], ast.Dict):
+                n.args[1] = L().visit(n.args[1])
+            return n
+    return ast.fix_missing_locations(T().visit(tree)), n_changed[0]
